@@ -59,7 +59,7 @@ Extensions for markers / _parser / metadata / licenses (x3; the handlers are the
                the element it is at
   state        functions whose first parameter is annotated ``Tokenizer`` run in the state monad ``PyTok.TM``: the tokenizer is
                the state, its methods (``check/read/expect/consume/raise_syntax_error``, ``.position``) are primitives of
-               ``lean/PkgModel/PyTok.lean`` (guarded by a digest of the class's source, ``STATE_GUARD``); the tokenizer may
+               ``lean/PkgModel/PyTok.lean`` (x9: proved equal to the translated methods of the class, see "Ninth round"); the tokenizer may
                only be used as their receiver or handed on to another such function, and not inside a ``try`` body
   oracles      inside the modules listed in ``ORACLE_CALLS`` a call of a listed function / constructor / method
                (``canonicalize_name``, ``Specifier(...)``, ``spec.contains``, ``utils.canonicalize_name``,
@@ -187,6 +187,32 @@ Seventh round (blocks marked `x7`; run-time additions in ``lean/PkgModel/PyX7.le
                ``for k in d`` where ``d`` comes from a call annotated ``-> tuple[…, dict[…]]``; parameters annotated
                ``email.message.Message`` are message *values* (``PyX7.msg_*``): ``del msg[k]`` rebinds the parameter (not seen by the
                caller), ``msg.get_payload(decode=…)``; ``b.decode("utf8", "strict")``
+Ninth round (blocks marked `x9`; run-time additions in ``lean/PkgModel/PyX9.lean``):
+  tokenizer    the methods of ``Tokenizer`` are translated (``self`` is the state of ``PyTok.TM``): ``self.source`` / ``self.position`` /
+               ``self.next_token`` are reads of the state, ``self.next_token = e`` and ``self.position += e`` updates
+               (``PyX9.set_next_token`` / ``advance``), ``name in self.rules`` and ``self.rules[name].match(self.source, self.position)``
+               (also through a local bound once to ``self.rules[name]``) the primitives ``PyX9.has_rule`` / ``rule_match`` over the
+               regenerated rules, ``m[0]`` / ``m.group(0)`` of such a match ``PyX9.match_group0``; ``Token(…)`` (a dataclass of the module
+               built from all its fields in order); ``raise self.m(…)`` (the call, then ``TypeError`` for a value that is no exception);
+               ``raise ParserSyntaxError(…)`` evaluates its arguments; calls of the other methods stay the primitives of PyTok.lean, which
+               ``Src/Tokenizer.lean`` proves equal to the translated methods — ``STATE_GUARD`` is no longer consulted.  A generator behind
+               ``@contextlib.contextmanager`` with one top-level bare ``yield`` is cut there: ``<f>__enter`` returns the local that is live
+               across the ``yield``, ``<f>__exit`` takes it as first parameter (``<f>__with``: the pair around ``self.consume(body)``, for
+               ``src.call``)
+  parse_email  a rewriting pass (``_X9MailRewrite``): ``email.parser.Parser(…).parsestr(x, …)`` / ``BytesParser(…).parsebytes(x, …)`` is an
+               oracle call whose key is the *source text of the call* (``x`` blanked) and whose answer is the message value
+               ``obj "Message" …`` of PyX7.lean; on a local only bound that way: ``.keys()``, ``.get_all(n)``, ``.get_payload(decode=…)``;
+               ``frozenset(msg.keys())`` (plain ``==``), ``email.header.decode_header(h)`` (the chunks the ``Header`` value carries),
+               ``str(email.header.make_header(chunks))`` (``Email.renderChunks`` on ``utf8`` / ``latin1`` chunks),
+               ``isinstance(h, email.header.Header)`` (also true for a header whose ``decode_header`` raises: ``HeaderErr``);
+               ``d.setdefault(k, []).append(x)`` / ``.extend(xs)``, ``d[k].append(x)``, ``x = d.pop(k)`` on an owned dict of lists
+               (functional updates); an expression statement ``b.decode("utf8", "strict")``; a tuple loop target with a component the
+               body rebinds; ``a in <named constant set> and b`` in a value context; storing an owned list into a dict (``d[k] = xs``)
+               inside the loop body that binds ``xs = []`` afresh, after its last in-place update
+  in-out       a library function that deletes headers of a message parameter (``del msg[k]``) is translated a second time as
+               ``<f>__io`` in ``PyX9.SM = ExceptT PyExc (StateM PyVal)`` — the message is the state, reads are ``get`` — when it is called
+               as the whole body of a ``try`` with a message local: ``try: x = f(m, …) except C: … else: …`` becomes a ``match`` on
+               ``PyX9.runSM (f__io …) m`` after ``m`` has been rebound to the message afterwards (no Lean ``try``: nothing is restored)
 Checks made by the translator (a failure makes the function unsupported):
   * a local changed inside a ``try`` body (other than by its last simple statement) must not be read in a handler or after
     a handler that falls through: Lean's ``try … catch`` restores the locals of the ``try`` start;
